@@ -91,7 +91,7 @@ Definition file_name (p : str) : option str :=
 Definition comp_text (c : comp) : str :=
   match c with CRoot => [47] | CCur => [46] | CParent => [46; 46] | CNormal s => s end.
 
-Definition ends_with (suf s : str) : bool := starts_with (List.rev suf) (List.rev s).
+Definition ends_with (suf s : str) : bool := starts_with (frev suf) (frev s).
 
 Inductive etype := Distfile | Patchfile.
 (* EntryType::from *)
@@ -114,16 +114,16 @@ Fixpoint skip_ws (l : str) : str :=
 (* split on ASCII white space, dropping empty pieces *)
 Fixpoint fields_aux (cur : str) (l : str) : list str :=
   match l with
-  | [] => match cur with [] => [] | _ => [List.rev cur] end
+  | [] => match cur with [] => [] | _ => [frev cur] end
   | c :: r => if is_ascii_ws c
-              then match cur with [] => fields_aux [] r | _ => List.rev cur :: fields_aux [] r end
+              then match cur with [] => fields_aux [] r | _ => frev cur :: fields_aux [] r end
               else fields_aux (c :: cur) r
   end.
 Definition fields (l : str) : list str := fields_aux [] l.
 (* "(name)" -> name *)
 Definition unparen (s : str) : option str :=
   match s with
-  | 40 :: r => match List.rev r with 41 :: m => Some (List.rev m) | _ => None end
+  | 40 :: r => match frev r with 41 :: m => Some (frev m) | _ => None end
   | _ => None
   end.
 Definition finish (action path value : str) : dline :=
@@ -222,7 +222,7 @@ Fixpoint find_walk (m : list dentry) (cs : list comp) (file : str) : option dent
       match get_entry m file' with Some e => Some e | None => find_walk m r file' end
   end.
 Definition find_entry (d : distinfo) (p : str) : option dentry :=
-  find_walk (match classify p with Distfile => dists d | Patchfile => patches d end) (List.rev (pcomps p)) [].
+  find_walk (match classify p with Distfile => dists d | Patchfile => patches d end) (frev (pcomps p)) [].
 
 Inductive verr := VIo | VNotFound | VSize (expected actual : Z) | VMissingSize
                 | VChecksum (a : alg) (expected : str) (preimage : str) | VMissingChecksum.
